@@ -30,7 +30,7 @@ def apply(arr, kind):
         first = flat[0]
         same = bool(np.all(flat == first)) or bool(np.all(flat != flat))
         if same:
-            return np.broadcast_to(np.float64(first), arr.shape)      # read-only, strides 0
+            return np.broadcast_to(arr.dtype.type(first), arr.shape)      # read-only, strides 0
         kind = 'F'
     if kind == 'F':
         out = np.asfortranarray(arr)
@@ -44,7 +44,7 @@ def apply(arr, kind):
         else:
             return np.moveaxis(np.ascontiguousarray(np.moveaxis(arr, 0, -1)), -1, 0)
     if kind == 'S':                               # every second element of a wider buffer
-        big = np.full(arr.shape[:-1] + (2 * arr.shape[-1] + 1,), -7.25)
+        big = np.full(arr.shape[:-1] + (2 * arr.shape[-1] + 1,), 7, dtype=arr.dtype)
         big[..., 1::2] = arr
         return big[..., 1::2]
     if kind == 'N':                               # negative stride along the first axis
@@ -74,3 +74,42 @@ def describe(arr):
     if any(s < 0 for s in arr.strides):
         return 'negative_stride'
     return 'strided'
+
+
+# --------------------------------------------------------------------------
+# round 5: integer dtypes and masks are presentations of the same numbers too
+
+INT_VALUE_DTYPES = ['int64', 'int32']                      # numpy keeps float64 accuracy for these
+INT_ERROR_DTYPES = ['int64', 'int32', 'uint32', 'uint64']   # (sqrt of int16/int8 is float32/float16)
+
+
+def cast(arr, dtype):
+    '''the same numbers with an integer dtype when they are integers in range, else unchanged'''
+    if not dtype or dtype == 'float64':
+        return arr
+    a = np.asarray(arr, dtype=float)
+    limit = 2 ** 30 if dtype in ('int64', 'uint64', 'pyint') else 30000     # squares must not wrap around
+    if not np.all(np.isfinite(a)) or np.any(a != np.round(a)) or np.any(np.abs(a) > limit) \
+            or (dtype.startswith('u') and np.any(a < 0)):
+        return arr
+    if np.ndim(arr) == 0:
+        return int(a) if dtype == 'pyint' else np.dtype(dtype).type(int(a))
+    return a.astype(dtype)
+
+
+def make_dataset(Dataset, shape, values, errors, kinds=('C', 'C'), dtypes=None, mask=None):
+    '''Dataset with the given logical content (flat lists of floats, C order), presented with the
+    given memory layouts, dtypes ('pyint' = Python int scalar) and, if not None, masked through
+    Dataset.mask(mask) (flat list of 0/1)'''
+    shape = tuple(shape)
+    dtypes = dtypes or (None, None)
+
+    def arr(flat, kind, dtype):
+        if not shape:
+            out = cast(np.float64(flat[0]), dtype)
+            return out
+        return apply(cast(np.array(flat, dtype=float).reshape(shape), dtype), kind)
+    dset = Dataset(arr(values, kinds[0], dtypes[0]), arr(errors, kinds[1], dtypes[1]))
+    if mask is not None and shape:
+        dset = dset.mask(np.array(mask, dtype=bool).reshape(shape))
+    return dset
